@@ -6,7 +6,9 @@
 use crate::util::*;
 use serde_json::{json, Value};
 use shared::hybrid::{EventKey, HybridError, SeedId, SeedKind, SeedRegistry, SeedSnapshot};
+use shared::seed_spec::{ExclusiveChoice, SeedSpec};
 use shared::triple::Triple;
+use std::collections::HashMap;
 
 const SPELL: [&str; 4] = ["{}", "<{}>", ":{}", " <:{}> "];
 
@@ -25,10 +27,24 @@ fn key_json(k: &EventKey) -> Value {
     json!({"s": k.stream_iri, "t": k.event_time, "q": k.sequence})
 }
 
+fn snapshot_event(ev: &str, items: Vec<Value>, r: Result<SeedSnapshot, HybridError>, groups: &[u32]) -> Value {
+    match r {
+        Ok(s) => {
+            let (recs, bytr, groups) = snapshot_json(&s, groups);
+            json!({"ev": ev, "items": items, "ok": "t", "id": 0, "err": "", "recs": recs, "bytr": bytr, "groups": groups})
+        }
+        Err(e) => {
+            let (ok, id, err) = reply(&Err(e));
+            json!({"ev": ev, "items": items, "ok": ok, "id": id, "err": err, "recs": [], "bytr": [], "groups": []})
+        }
+    }
+}
+
 fn reply(r: &Result<SeedId, HybridError>) -> (Value, Value, Value) {
     match r {
         Ok(id) => (json!("t"), json!(id.get()), json!("")),
         Err(HybridError::UnknownSeed(id)) => (json!("f"), json!(id.get()), json!("UnknownSeed")),
+        Err(HybridError::DuplicateSeedId(id)) => (json!("f"), json!(id.get()), json!("DuplicateSeedId")),
         Err(HybridError::InvalidProbability) => (json!("f"), json!(0), json!("InvalidProbability")),
         Err(HybridError::SeedIdExhausted) => (json!("f"), json!(0), json!("SeedIdExhausted")),
         Err(e) => (json!("f"), json!(0), json!(format!("{e:?}"))),
@@ -81,7 +97,7 @@ pub fn main(a: &Args) {
         let ntr = rng.range(2, 6);
         for _ in 0..steps {
             let p = if rng.chance(4, 5) { probs[rng.below(6) as usize] } else { probs[rng.below(9) as usize] };
-            match rng.below(10) {
+            match rng.below(11) {
                 0 | 1 => {
                     let norm = rng.range(1, 3);
                     let raw = SPELL[rng.below(4) as usize].replace("{}", &format!("s{norm}"));
@@ -137,6 +153,41 @@ pub fn main(a: &Args) {
                             out.ev(json!({"ev": "snap", "ids": req, "ok": ok, "id": id, "err": err, "recs": [], "bytr": [], "groups": []}));
                         }
                     }
+                }
+                9 if rng.chance(1, 2) => {
+                    // SeedSnapshot::from_seed_specs: caller-chosen identifiers (sometimes clashing), groups split over several specs
+                    let mut specs: Vec<SeedSpec> = Vec::new();
+                    let mut items: Vec<Value> = Vec::new();
+                    for _ in 0..rng.range(0, 4) {
+                        let pp = if rng.chance(9, 10) { probs[rng.below(6) as usize] } else { probs[rng.below(9) as usize] };
+                        if rng.chance(1, 2) {
+                            let (id, tr) = (rng.below(7), rng.range(1, ntr));
+                            specs.push(SeedSpec::Independent { triple: triple(tr), prob: prob(pp), seed_id: id as u32 });
+                            items.push(json!({"id": id, "tr": tr, "p": pp, "kind": -1}));
+                        } else {
+                            let g = *rng.pick(&all_groups);
+                            let mut choices = Vec::new();
+                            for _ in 0..rng.range(0, 3) {
+                                let (id, tr) = (rng.below(7), rng.range(1, ntr));
+                                let cp = probs[rng.below(6) as usize];
+                                choices.push(ExclusiveChoice { triple: triple(tr), prob: prob(cp), choice_id: id as u32 });
+                                items.push(json!({"id": id, "tr": tr, "p": cp, "kind": g}));
+                            }
+                            specs.push(SeedSpec::ExclusiveGroup { group_id: g, choices });
+                        }
+                    }
+                    out.ev(snapshot_event("specs", items, SeedSnapshot::from_seed_specs(&specs), &all_groups));
+                }
+                9 => {
+                    let mut m: HashMap<Triple, f64> = HashMap::new();
+                    let mut chosen: Vec<(u64, i64)> = Vec::new();
+                    for _ in 0..rng.range(0, 4) {
+                        let tr = rng.range(1, ntr + 3);
+                        let pp = if rng.chance(9, 10) { probs[rng.below(6) as usize] } else { probs[rng.below(9) as usize] };
+                        if !chosen.iter().any(|(t, _)| *t == tr) { chosen.push((tr, pp)); m.insert(triple(tr), prob(pp)); }
+                    }
+                    let items: Vec<Value> = chosen.iter().map(|(tr, pp)| json!({"tr": tr, "p": pp})).collect();
+                    out.ev(snapshot_event("pseeds", items, SeedSnapshot::from_probability_seeds(&m), &all_groups));
                 }
                 _ => {
                     let s = reg.snapshot_all();
